@@ -214,9 +214,13 @@ extern "C" int __wrap_accept(int lfd, struct sockaddr *a, socklen_t *n) {
   return fd;
 }
 
+// a descriptor reported readable that the driver does not read is reported again at once by a level-triggered poll: three
+// cycles in a row of that are a busy loop in deployment
+static std::map<int, int> in_reported, in_ignored;
 extern "C" ssize_t __wrap_recv(int fd, void *buf, size_t len, int flags) {
   (void)flags;
   if (!kernel_is_simfd(fd) || fds[fd].kind != K_CONN) { errno = EBADF; ev("recv_badfd %d", fd); S.stats["badfd"]++; return -1; }
+  in_reported.erase(fd); in_ignored.erase(fd);
   Conn &c = conns[fds[fd].conn];
   advance_us(2);
   if (c.rst) { errno = ECONNRESET; ev("recv conn=%d rst", c.id); return -1; }
@@ -462,11 +466,21 @@ extern "C" int __wrap_epoll_wait(int ep, struct epoll_event *out, int maxev, int
   if (S.cycle > S.max_cycles) { ev("HANG cycles"); ev_flush(); _exit(75); }
   if (S.elig_on) ev("cycle timeout=%d instr=%ld elig=%ld", timeout_ms, S.instr_total, S.elig_total);
   else ev("cycle timeout=%d instr=%ld", timeout_ms, S.instr_total);
+  for (auto it = in_reported.begin(); it != in_reported.end(); ) {
+    int fd = it->first;
+    auto f = fds.find(fd);
+    if (f == fds.end() || f->second.kind != K_CONN) { in_ignored.erase(fd); it = in_reported.erase(it); continue; }
+    // (whether the cycles in between were cut short by an error - then the event is simply due again - is judged by the oracle)
+    if (++in_ignored[fd] <= 8) { ev("unread conn=%d fd=%d run=%d", f->second.conn, fd, in_ignored[fd]); S.stats["ready_unread"]++; }
+    ++it;
+  }
+  in_reported.clear();
   invariants_at_cycle();
   run_external_steps();
   advance_us(5);
   SimFd &E = fds[ep];
   std::vector<epoll_event> ready;
+  std::vector<int> ready_fd;      // parallel to ready: the descriptor when it is a connection reported readable, else -1
   for (auto &kv : E.interest) {
     int fd = kv.first; uint32_t want = kv.second.events; uint32_t got = 0;
     auto it = fds.find(fd);
@@ -484,16 +498,17 @@ extern "C" int __wrap_epoll_wait(int ep, struct epoll_event *out, int maxev, int
       }
     }
     if (got) { epoll_event e = kv.second; e.events = got; ready.push_back(e); }
+    if (got) ready_fd.push_back(((got & EPOLLIN) && f.kind == K_CONN) ? fd : -1);
   }
   // kernel order of the ready list is unspecified: permute it deterministically
   uint64_t seed = (uint64_t)S.plan.optl("epoll_seed", 0);
   if (seed && ready.size() > 1) {
     uint64_t x = splitmix(seed ^ (uint64_t)S.cycle * 0x9e37ULL);
-    for (size_t i = ready.size() - 1; i > 0; i--) { x = splitmix(x); std::swap(ready[i], ready[x % (i + 1)]); }
+    for (size_t i = ready.size() - 1; i > 0; i--) { x = splitmix(x); std::swap(ready[i], ready[x % (i + 1)]); std::swap(ready_fd[i], ready_fd[x % (i + 1)]); }
     S.stats["epoll_permuted"]++;
   }
   int n = (int)std::min(ready.size(), (size_t)maxev);
-  for (int i = 0; i < n; i++) out[i] = ready[i];
+  for (int i = 0; i < n; i++) { out[i] = ready[i]; if (ready_fd[i] >= 0) in_reported[ready_fd[i]] = 1; }
   if (n == 0 && timeout_ms != 0) S.stats["epoll_timeouts"]++;
   ev("epoll n=%d", n);
   return n;
